@@ -84,7 +84,15 @@ const (
 	lkIdx   // slice off/len/cap
 	lkTag   // interface tag
 	lkVal   // interface payload
+	lkTime  // time.Time as mathematical unix nanoseconds (sort Int in both modes)
 )
+
+const zeroTimeNs = "(- 62135596800000000000)"
+
+func isTimeType(t types.Type) bool {
+	n, ok := types.Unalias(t).(*types.Named)
+	return ok && n.Obj().Pkg() != nil && n.Obj().Pkg().Path() == "time" && n.Obj().Name() == "Time"
+}
 
 func sanitize(s string) string {
 	r := strings.NewReplacer("/", "_", ".", "_", "*", "P", "[", "_", "]", "_", " ", "", "(", "_", ")", "_", ",", "_", "{", "_", "}", "_", ";", "_")
@@ -111,6 +119,9 @@ func (e *Engine) typeKey(t types.Type) string {
 // leaves of a type in the current mode.
 func (e *Engine) leaves(t types.Type) []Leaf {
 	a := e.ar
+	if isTimeType(t) {
+		return []Leaf{{"", "Int", t, lkTime}}
+	}
 	switch u := t.Underlying().(type) {
 	case *types.Basic:
 		if w, _, ok := intInfo(u); ok {
@@ -168,6 +179,9 @@ func (e *Engine) leaves(t types.Type) []Leaf {
 
 // flatten an SV of type t into its leaf terms.
 func (e *Engine) flatten(t types.Type, v SV) []string {
+	if isTimeType(t) {
+		return []string{v.(*Sc).T}
+	}
 	switch u := t.Underlying().(type) {
 	case *types.Struct:
 		sv, ok := v.(*StructSV)
@@ -244,6 +258,9 @@ func (e *Engine) ptrTerm(v SV) string {
 
 // unflatten builds an SV of type t from leaf terms; returns remaining terms.
 func (e *Engine) unflatten(t types.Type, ts []string) (SV, []string) {
+	if isTimeType(t) {
+		return &Sc{ts[0]}, ts[1:]
+	}
 	switch u := t.Underlying().(type) {
 	case *types.Struct:
 		sv := &StructSV{}
@@ -312,6 +329,8 @@ func (e *Engine) zeroOfLeaf(l Leaf) string {
 		return "float_zero"
 	case lkStr:
 		return e.strConstID("")
+	case lkTime:
+		return zeroTimeNs
 	}
 	return "0"
 }
